@@ -465,6 +465,14 @@ func (b *Bed) Request(c Case) (client.Request, error) {
 				formBody = formBody || st.Shape == "otherparam"
 			}
 
+			if st.Shape == "empty" {
+				if st.Src == "cookie" {
+					cookies = append(cookies, fmt.Sprintf("cred_p%d=", p))
+				} else {
+					q.Set(fmt.Sprintf("cred_p%d", p), "")
+				}
+			}
+
 			if st.Shape == "otherscheme" && st.Src != "authz" {
 				r.Headers = append(r.Headers, [2]string{fmt.Sprintf("X-Auth-P%d", p), "Basic dXNlcjpwdw=="})
 			}
